@@ -208,6 +208,108 @@ fn run(events: &[Ev]) -> Result<Outcome, V> {
     Ok(out)
 }
 
+// ------------------------------------------------------------------------------------------------
+// Second driver: a USER-SUPPLIED instrument data state whose processing is not idempotent (an indicator: the
+// price is the running mean of every priced item it was handed). "The instrument's current price" is whatever
+// `InstrumentDataState::price()` says after the event; the estimate must be evaluated at THAT price, and every
+// market item is handed to the data state exactly once.
+
+#[derive(Debug, Clone, Default, PartialEq)]
+struct MeanPrice {
+    sum: Decimal,
+    n: u64,
+    /// every call of `process` with a market item, priced or not
+    deliveries: u64,
+}
+
+impl InstrumentDataState for MeanPrice {
+    type MarketEventKind = barter_data::event::DataKind;
+    fn price(&self) -> Option<Decimal> {
+        (self.n > 0).then(|| self.sum / Decimal::from(self.n))
+    }
+}
+impl Processor<&barter_data::event::MarketEvent<InstrumentIndex, barter_data::event::DataKind>> for MeanPrice {
+    type Audit = ();
+    fn process(&mut self, e: &barter_data::event::MarketEvent<InstrumentIndex, barter_data::event::DataKind>) {
+        use barter_data::event::DataKind;
+        self.deliveries += 1;
+        let px = match &e.kind {
+            DataKind::Trade(t) => Decimal::try_from(t.price).ok(),
+            DataKind::OrderBookL1(l1) => l1.volume_weighed_mid_price().or_else(|| l1.best_bid.map(|l| l.price)).or_else(|| l1.best_ask.map(|l| l.price)),
+            _ => None,
+        };
+        if let Some(px) = px {
+            self.sum += px;
+            self.n += 1;
+        }
+    }
+}
+impl Processor<&barter_execution::AccountEvent> for MeanPrice {
+    type Audit = ();
+    fn process(&mut self, _: &barter_execution::AccountEvent) {}
+}
+impl barter::engine::state::order::in_flight_recorder::InFlightRequestRecorder for MeanPrice {
+    fn record_in_flight_cancel(&mut self, _: &barter_execution::order::request::OrderRequestCancel<barter_instrument::exchange::ExchangeIndex, InstrumentIndex>) {}
+    fn record_in_flight_open(&mut self, _: &barter_execution::order::request::OrderRequestOpen<barter_instrument::exchange::ExchangeIndex, InstrumentIndex>) {}
+}
+
+type CustomState = barter::engine::state::EngineState<barter::engine::state::global::DefaultGlobalData, MeanPrice>;
+
+fn run_custom(events: &[Ev]) -> Result<Outcome, V> {
+    use barter::engine::{Engine, execution_tx::MultiExchangeTxMap, state::EngineState};
+    use vharness::fixtures::{RecTx, ScriptRisk, ScriptStrategy, TestClock, TxMode};
+    let ins = instruments();
+    let exch_idx: Vec<usize> = ins.instruments().iter().map(|i| i.value.exchange.key.index()).collect();
+    let exch_id: Vec<ExchangeId> = ins.instruments().iter().map(|i| i.value.exchange.value).collect();
+    let txs: Vec<RecTx> = ins.exchanges().iter().map(|_| RecTx::new(TxMode::Healthy)).collect();
+    let map = MultiExchangeTxMap::from_iter(ins.exchanges().iter().zip(txs.iter()).map(|(e, tx)| (e.value, Some(tx.clone()))));
+    let state: CustomState = EngineState::builder(&ins, barter::engine::state::global::DefaultGlobalData, MeanPrice::default).time_engine_start(fixtures::t0()).trading_state(TradingState::Disabled).build();
+    let mut engine = Engine::new(TestClock::new(fixtures::t0()), state, map, ScriptStrategy::<CustomState>::default(), ScriptRisk::<CustomState>::default());
+    let mut out = Outcome { steps: 0, checks: 0, cells: vec!["driver:user_supplied_non_idempotent_data_state"], nontrivial: false, soft: vec![] };
+    let mut market_items = [0u64; 3];
+    let mut tid = 0u32;
+    for (idx, ev) in events.iter().enumerate() {
+        let i = ev.instr();
+        let engine_event = match ev {
+            Ev::Fill { i, buy, p, q, fee, t } => {
+                tid += 1;
+                fixtures::ev_trade(exch_idx[*i], *i, &format!("t{tid}"), *t, if *buy { Side::Buy } else { Side::Sell }, d(p), d(q), d(fee))
+            }
+            Ev::Trade { i, p, t } => fixtures::ev_market_trade(exch_id[*i], *i, *t, *p),
+            Ev::L1 { i, bid, ask, t } => fixtures::ev_market_l1(exch_id[*i], *i, *t, bid.as_ref().map(|(p, a)| (d(p), d(a))), ask.as_ref().map(|(p, a)| (d(p), d(a)))),
+        };
+        if !matches!(ev, Ev::Fill { .. }) {
+            market_items[i] += 1;
+        }
+        catch(|| engine.process(engine_event)).map_err(|m| ("panic_in_engine_process", format!("custom data state, event #{idx} {ev:?}: {m}")))?;
+        out.steps += 1;
+        let st = engine.state.instruments.instrument_index(&InstrumentIndex(i));
+        out.checks += 1;
+        if st.data.deliveries != market_items[i] {
+            return Err((
+                "market_item_not_handed_to_the_instrument_data_state_exactly_once",
+                format!("custom data state, event #{idx} {ev:?}: instrument {i} was sent {} market items, its data state processed {}", market_items[i], st.data.deliveries),
+            ));
+        }
+        if let (Ev::Trade { .. } | Ev::L1 { .. }, Some(pos), Some(price)) = (ev, &st.position.current, st.data.price()) {
+            out.checks += 1;
+            let want = estimate(pos, price);
+            if (pos.pnl_unrealised - want).abs() > tol(pos, price) {
+                return Err((
+                    "unrealised_pnl_not_reevaluated_at_current_price",
+                    format!(
+                        "custom data state, event #{idx} {ev:?}: instrument {i} price()={price} position=({:?} qty {} entry {} qmax {} fees_enter {}) pnl_unrealised={} expected {want}",
+                        pos.side, pos.quantity_abs, pos.price_entry_average, pos.quantity_abs_max, pos.fees_enter.fees, pos.pnl_unrealised
+                    ),
+                ));
+            }
+            out.cells.push("custom_data_state:priced_market_item_with_open_position");
+            out.nontrivial = true;
+        }
+    }
+    Ok(out)
+}
+
 fn gen_events(rng: &mut Rng) -> Vec<Ev> {
     let n = rng.range_u(3, 100);
     let mut evs = Vec::with_capacity(n);
@@ -278,6 +380,26 @@ fn gen_events(rng: &mut Rng) -> Vec<Ev> {
 
 fn execute(events: &[Ev], report: &mut Report) {
     let h = fnv1a(format!("{events:?}").as_bytes());
+    // every fourth history also runs over a user-supplied, non-idempotent instrument data state
+    if h % 4 == 0 {
+        match run_custom(events) {
+            Ok(out) => {
+                report.events_observed += out.steps;
+                report.oracle_checks += out.checks;
+                for c in &out.cells {
+                    report.cover(c);
+                }
+            }
+            Err((sig, detail)) => {
+                let small = shrink(events, |cand| matches!(run_custom(cand), Err((s, _)) if s == sig));
+                let detail = match run_custom(&small) {
+                    Err((_, dd)) => dd,
+                    Ok(_) => detail,
+                };
+                report.violation(sig, detail, json!({"events": small, "custom_data_state": true}));
+            }
+        }
+    }
     match run(events) {
         Ok(out) => {
             report.events_observed += out.steps;
@@ -311,6 +433,11 @@ fn main() {
         let v: Value = serde_json::from_str(&std::fs::read_to_string(path).expect("read replay")).expect("json");
         let events: Vec<Ev> = serde_json::from_value(v["history"]["events"].clone()).expect("events");
         let mut report = Report::new("C15");
+        if v["history"]["custom_data_state"].as_bool() == Some(true) {
+            if let Err((sig, detail)) = run_custom(&events) {
+                report.violation(sig, detail, json!({"events": events, "custom_data_state": true}));
+            }
+        }
         execute(&events, &mut report);
         println!("{}", serde_json::to_string_pretty(&report.to_json()).unwrap());
         std::process::exit(if report.violation_count > 0 { 1 } else { 0 });
@@ -329,6 +456,8 @@ fn main() {
     if args.tier != "miri" {
         for c in [
             "fill_leaves_position_open",
+            "driver:user_supplied_non_idempotent_data_state",
+            "custom_data_state:priced_market_item_with_open_position",
             "position_with_negative_entry_fees_(rebates)",
             "fill_closes_position",
             "priced_market_item_with_open_position",
